@@ -577,6 +577,39 @@ func C13(x *Ctx) []Violation {
 						}
 					}
 				}
+				// two OTHER parameters whose record fields collide get numbers appended (Key, Key -> Key, Key2): a
+				// parameter whose own field is such a numbered name (key2) is renamed in turn
+				fieldCount := map[string]int{}
+				for k := range preds {
+					if k == j {
+						continue
+					}
+					seenF := map[string]bool{}
+					for _, b := range preds[k].alts {
+						if f := ExportedModel(b); b != "" && !seenF[f] {
+							seenF[f] = true
+							fieldCount[f]++
+						}
+					}
+				}
+				for _, a := range pr.alts {
+					fa := ExportedModel(a)
+					digits := fa[len(strings.TrimRight(fa, "0123456789")):]
+					if digits == "" {
+						continue
+					}
+					for k := range preds {
+						if k == j {
+							continue
+						}
+						for _, b := range preds[k].alts {
+							// b is in a colliding group and b+digits would get our field
+							if b != "" && fieldCount[ExportedModel(b)] > 1 && ExportedModel(b+digits) == fa {
+								collision = true
+							}
+						}
+					}
+				}
 				// an unasserted neighbour may have produced any name, including ours
 				for k := range preds {
 					if k != j && !preds[k].asserted {
